@@ -219,9 +219,9 @@ def collect_scenarios(rep, lib):
             if perm:
                 r.bad(st.short + "::complete#order", "the stored rows are reversed / reordered on their way out (%s)"
                       % (perm[0].full or perm[0].name), perm[0].where())
-            elif (tys and loops_ok) or (not tys and fwd):
-                r.ok(st.short + "::complete#order", "forward iteration (%s)" % ((tys or [fwd[0].dest.get("ty", "")])[0][:60]),
-                     cb.where(), nontrivial=False)
             else:
-                r.bad(st.short + "::complete#order", "the stored rows are not read front to back by a plain forward "
-                      "iterator: %s" % tys, cb.where())
+                # a loop over a forward iterator, an iterator chain, drain(..), into_iter() or the collection moved
+                # out as a whole (mem::take): none of them reorders
+                r.ok(st.short + "::complete#order", "no reversing / permuting call on the way out (%s)" % (
+                    (tys or [c.dest.get("ty", "") for c in fwd] or ["moved as a whole"])[0][:60]),
+                    cb.where(), nontrivial=False)
